@@ -15,7 +15,7 @@ oracle : on the implementation alone: ACL verdict = python longest-prefix refere
 import os
 import vcommon as V
 import eval_util as EU
-from gen import aclgen, evalgen, proggen, seriesgen
+from gen import aclgen, evalgen, proggen, seriesgen, rebindgen
 
 
 def _acl_requests(rng, n_acl, stats):
@@ -288,6 +288,9 @@ def run_programs(ctx, model, impl, thorough):
     rng = ctx.rng
     stats = {}
     progs = [proggen.gen_program(rng, stats) for _ in range(60000 if thorough else 2500)]
+    # SIZE of control structures: every size 1..40 of switch and if-chain once, plus random ones
+    progs += proggen.size_sweep(rng, stats)
+    progs += [(proggen.gen_big_switch if rng.random() < 0.6 else proggen.gen_big_if)(rng, stats) for _ in range(20000 if thorough else 700)]
     ireq = ["- %s %s" % (v.encode().hex(), ",".join(names) or "-") for v, s, names in progs]
     mreq = ["prog " + s for v, s, names in progs]
     irep = V.run_batch(impl + ["evalprog"], ireq, hang_s=5)
@@ -310,6 +313,78 @@ def run_programs(ctx, model, impl, thorough):
                                 "statements_total": sum(stats.values())}
     ctx.samples += [{"program": progs[i][0][:400], "interpreter": (irep[i] or "")[:160]} for i in (0, len(progs) - 1)]
     return len(progs), len(set(ireq))
+
+
+def run_rebinding(ctx, model, impl, thorough):
+    """SEQUENCES over mutable bindings: every pooled variable (ACL, BACKEND, IP, STRING, INTEGER, FLOAT, BOOL, RTIME)
+    is re-assigned in 2-4 rounds and the same expressions are evaluated after each round.  Compared with Model/Eval.v
+    and - on the implementation alone - with a fresh interpreter that runs only that round (metamorphic oracle);
+    REGEX locals and re.group.N are covered by the fresh-interpreter oracle only."""
+    rng = ctx.rng
+    stats = {}
+    n = 12000 if thorough else 350
+    rb = [rebindgen.gen_rebind(rng, stats) for _ in range(n)]
+    main = rebindgen.ACL_VCL.encode().hex()
+    ireq = ["%s %s %s" % (main, v.encode().hex(), ",".join(names)) for v, s, names, fresh in rb]
+    mreq = ["prog " + s for v, s, names, fresh in rb]
+    freq, fidx = [], []
+    for i, (v, s, names, fresh) in enumerate(rb):
+        for src, res in fresh:
+            freq.append("%s %s %s" % (main, src.encode().hex(), ",".join(res)))
+            fidx.append(i)
+    rg = [rebindgen.gen_regex_rebind(rng, stats) for _ in range(n)]
+    wreq = ["- %s %s" % (w.encode().hex(), ",".join(sum([res for _, res in fresh], []))) for w, fresh in rg]
+    gq, gidx = [], []
+    for i, (w, fresh) in enumerate(rg):
+        for src, res in fresh:
+            gq.append("- %s %s" % (src.encode().hex(), ",".join(res)))
+            gidx.append(i)
+    rep = V.run_batch(impl + ["evalprog"], ireq + freq + wreq + gq, hang_s=5)
+    irep, frep = rep[:len(ireq)], rep[len(ireq):len(ireq) + len(freq)]
+    wrep, grep_ = rep[len(ireq) + len(freq):len(ireq) + len(freq) + len(wreq)], rep[len(ireq) + len(freq) + len(wreq):]
+    mrep = V.run_batch([model], mreq, hang_s=60)
+    agree = meta_ok = regex_ok = 0
+    for (v, s, names, fresh), ir, mr in zip(rb, irep, mrep):
+        ist, idd = _canon_prog(ir, "impl")
+        mst, mdd = _canon_prog(mr, "model")
+        if ist == mst == "ok" and all(idd.get(k) == mdd.get(k, "?") for k in idd):
+            agree += 1
+            continue
+        diff = [k for k in idd if idd.get(k) != mdd.get(k, "?")]
+        ctx.violation("after re-assignment an expression evaluates differently from Model/Eval.v (%s vs %s, results %s)" % (
+            ist, mst, ",".join("var.v" + k for k in diff[:6]) or "-"),
+            {"main": rebindgen.ACL_VCL, "program": v, "impl": ir, "model": mr})
+    for i, fr in zip(fidx, frep):
+        whole = _canon_prog(irep[i], "impl")[1]
+        fst, f = _canon_prog(fr, "impl")
+        bad = [k for k, val in f.items() if whole.get(k) != val]
+        if fst != "ok" or bad:
+            ctx.violation("an expression evaluated after a re-assignment differs from the same expression in a fresh interpreter "
+                          "(results %s)" % ",".join("var.v" + k for k in bad[:6]),
+                          {"main": rebindgen.ACL_VCL, "program": rb[i][0], "impl": irep[i], "fresh_round": fr})
+        else:
+            meta_ok += 1
+    for i, fr in zip(gidx, grep_):
+        whole = _canon_prog(wrep[i], "impl")[1]
+        fst, f = _canon_prog(fr, "impl")
+        keys = sorted(f, key=int)
+        bad = []
+        for b, g in zip(keys[0::2], keys[1::2]):          # (match result, re.group text) pairs
+            if whole.get(b) != f[b]:
+                bad.append(b)
+            elif f[b] == ("B", "1") and whole.get(g) != f[g]:   # groups are defined by the last SUCCESSFUL match only
+                bad.append(g)
+        if fst != "ok" or bad:
+            ctx.violation("a regular-expression match repeated after re-assigning the REGEX / subject differs from a fresh interpreter "
+                          "(results %s)" % ",".join("var.v" + k for k in bad[:6]),
+                          {"program": rg[i][0], "impl": wrep[i], "fresh_round": fr})
+        else:
+            regex_ok += 1
+    ctx.coverage["rebinding"] = {"programs": len(rb), "agree_with_model": agree, "rounds_checked_against_fresh_interpreter": meta_ok,
+                                 "regex_programs": len(rg), "regex_rounds_checked_against_fresh_interpreter": regex_ok,
+                                 "expressions_re_evaluated_per_round": len(rebindgen.READS), "generator": dict(sorted(stats.items()))}
+    ctx.samples += [{"rebinding_program": rb[0][0][:500], "interpreter": (irep[0] or "")[:200]}]
+    return len(rep), len(set(ireq + wreq))
 
 
 # minimised inputs of the concatenation defects repaired in interpreter/expression.go (run first):
@@ -379,7 +454,8 @@ def run(ctx):
     n2, d2 = run_cells(ctx, model, impl, thorough)
     n3, d3 = run_programs(ctx, model, impl, thorough)
     n4, d4 = run_series(ctx, model, impl, thorough)
-    n3, d3 = n3 + n4, d3 + d4
+    n5, d5 = run_rebinding(ctx, model, impl, thorough)
+    n3, d3 = n3 + n4 + n5, d3 + d4 + d5
     if not proved and not ctx.violations:
         ctx.violation("proof obligation of C07 no longer checks: " + (ctx.broken or "Props/C07.v"),
                       {"no_failing_input": True, "broken": ctx.broken,
